@@ -5,11 +5,11 @@ Nothing stays patched outside a `with World(...)` block.
 import builtins
 import fcntl
 import gc
-import glob as _glob
 import io
 import os
 import random
 import shutil
+import sys
 import threading
 import time
 
@@ -282,6 +282,14 @@ class World(object):
         import mapproxy.util.lock as mlock
         P(mlock, '_cleanup_counter', -1)
         random.seed(self.tape.fork_seed('global-random'))
+        self._unraisable = sys.unraisablehook
+
+        def quiet_unraisable(u, _prev=self._unraisable):
+            # __del__ of objects owned by aborted / killed tasks: a dead process cannot act
+            if isinstance(u.exc_value, (_sched.SimAbort, _sched.SimCrash)):
+                return
+            _prev(u)
+        sys.unraisablehook = quiet_unraisable
         self._gc_was = gc.isenabled()
         gc.disable()
         return self
@@ -292,6 +300,7 @@ class World(object):
             setattr(obj, attr, old)
         self._saved.clear()
         SimQueue._sched = None
+        sys.unraisablehook = self._unraisable
         _active[0] = None
         if self._gc_was:
             gc.enable()
